@@ -1,7 +1,7 @@
 import time
 
 from . import core
-from .core import C, ONE, norm_under_pc, pnot, relevant_pc, solve, peval
+from .core import C, ONE, norm_under_pc, norm_deep, pnot, relevant_pc, solve, peval
 from .values import SBit, SBits, SBytes, SInt, SLin, fresh_bit, ball, beq, tobit, bitpoly, as_sint, is_sym
 
 LOG = []  # (name, backend, seconds)
@@ -48,7 +48,7 @@ def prove(cond, name):
     p = bitpoly(cond)
     if p is None:
         p = ONE if cond else frozenset()
-    p = norm_under_pc(p)
+    p = norm_deep(p)
     if p == ONE:
         LOG.append((name, "gf2", time.time() - t0))
         return "gf2"
@@ -71,7 +71,7 @@ def prove(cond, name):
             break
     before = dict(C.stats)
     st, env = solve(rel + [pnot(p)], want_model=True)
-    be = "z3" if C.stats["z3"] > before["z3"] else "enum"
+    be = "z3" if C.stats["z3"] > before["z3"] else ("enum" if C.stats["enum"] > before["enum"] else "gf2-xor")
     if st == "unsat":
         LOG.append((name, be, time.time() - t0))
         return be
